@@ -32,7 +32,9 @@ RULE = {
         "await once more then raise / await once more then propagate / swallow and return), restart limit 0/1/3/None, RESTART_DELAY 0/2 s, and a control "
         "schedule of start, stop (as a task), cancel, wait (as a task), extra task (finishes / fails / blocks) and clock "
         "advances of 0.5-5 s landing before, inside and after the restart delay. service: a BackgroundService with several "
-        "tasks and the same stop/cancel/wait operations. group: run(a, b, ...) over 1-3 terminating actors. Oracle: at most one "
+        "tasks and the same stop/cancel/wait operations. group: run(a, b, ...) over 1-3 terminating actors. resampling_actor: "
+        "a real ComponentMetricsResamplingActor with 1-3 series, one of whose sources may be closed while it runs, stopped by "
+        "stop() or cancel()+wait(): afterwards is_running is False, its tasks are done and no sample is emitted any more. Oracle: at most one "
         "_run active; a run that returned, was cancelled or raised BaseException is the last until the next start(); after "
         "stop()/cancel() no new _run begins until the next start(); a run that raised Exception with restarts left and no "
         "stop pending is followed by the next run exactly RESTART_DELAY later and by none when the limit is exhausted, in "
@@ -110,7 +112,16 @@ def strategy(tier: str, pid: str = "C10") -> st.SearchStrategy[Any]:
         "limit": st.sampled_from([0, 1, 3]),
         "delay": st.sampled_from([0.0, 2.0]),
     })
-    return st.one_of(actor, actor, actor, actor, service, group)
+    # a real actor of the SDK that spawns tasks of its own: the resampling actor, with a source that may fail
+    real = st.fixed_dictionaries({
+        "kind": st.just("resampling_actor"),
+        "nseries": st.integers(1, 3),
+        "close_at": st.one_of(st.none(), st.integers(1, 4)),
+        "close_which": st.integers(0, 2),
+        "run_for": st.integers(1, 5),
+        "how": st.sampled_from(["stop", "stop", "cancel_wait"]),
+    })
+    return st.one_of(actor, actor, actor, actor, actor, actor, actor, actor, service, service, group, group, real)
 
 
 # --------------------------------------------------------------------------- probe actor
@@ -558,9 +569,116 @@ def _run_group(case: dict[str, Any], v: Verdict) -> None:
     v.nontrivial = len(case["actors"]) >= 2
 
 
+def _run_resampling_actor(case: dict[str, Any], v: Verdict) -> None:
+    """stop() of a real SDK actor: every task it spawned has ended, nothing is emitted afterwards."""
+    import dataclasses  # pylint: disable=import-outside-toplevel
+
+    from frequenz.channels import Broadcast  # pylint: disable=import-outside-toplevel
+    from frequenz.client.microgrid import ComponentMetricId  # pylint: disable=import-outside-toplevel
+    from frequenz.quantities import Quantity  # pylint: disable=import-outside-toplevel
+    from frequenz.sdk._internal._channels import ChannelRegistry  # pylint: disable=import-outside-toplevel
+    from frequenz.sdk.microgrid._data_sourcing import ComponentMetricRequest  # pylint: disable=import-outside-toplevel
+    from frequenz.sdk.microgrid._resampling import ComponentMetricsResamplingActor  # pylint: disable=import-outside-toplevel
+    from frequenz.sdk.timeseries import ResamplerConfig, Sample  # pylint: disable=import-outside-toplevel
+
+    n = case["nseries"]
+    counts = [0] * n
+    info: dict[str, Any] = {}
+
+    async def scenario() -> None:
+        before = {t for t in asyncio.all_tasks()}
+        registry = ChannelRegistry(name="c10")
+        ds_requests: Any = Broadcast(name="ds-requests")
+        keep = ds_requests.new_receiver(limit=1000)
+        rs_requests: Any = Broadcast(name="rs-requests")
+        actor = ComponentMetricsResamplingActor(
+            channel_registry=registry, data_sourcing_request_sender=ds_requests.new_sender(),
+            resampling_request_receiver=rs_requests.new_receiver(limit=1000),
+            config=ResamplerConfig(resampling_period=timedelta(seconds=1.0)))
+        actor.start()
+        req_tx = rs_requests.new_sender()
+        mine: list[asyncio.Task[None]] = []
+        sources = []
+        for i in range(n):
+            req = ComponentMetricRequest("ns", 100 + i, ComponentMetricId.ACTIVE_POWER, None)
+            rx = registry.get_or_create(Sample[Quantity], req.get_channel_name()).new_receiver(limit=100000)
+
+            async def collect(rx: Any = rx, i: int = i) -> None:
+                async for _sample in rx:
+                    counts[i] += 1
+
+            mine.append(asyncio.create_task(collect()))
+            await req_tx.send(req)
+            src = dataclasses.replace(req, namespace=req.namespace + ":Source")
+            sources.append(registry.get_or_create(Sample[Quantity], src.get_channel_name()))
+        await world.settle(3)
+
+        async def feed() -> None:
+            senders = [c.new_sender() for c in sources]
+            k = 0
+            while True:
+                for i, tx in enumerate(senders):
+                    if info.get("closed") == i:
+                        continue
+                    await tx.send(Sample(world.now(), Quantity(float(k))))
+                k += 1
+                await asyncio.sleep(0.5)
+
+        mine.append(asyncio.create_task(feed()))
+        if case["close_at"] is not None:
+            await asyncio.sleep(case["close_at"] + 0.25)
+            which = case["close_which"] % n
+            info["closed"] = which
+            await sources[which].close()
+            v.labels.add("source_of_a_real_actor_closed")
+        await asyncio.sleep(case["run_for"] + 0.25)
+        if not actor.is_running:
+            v.fail("the resampling actor stopped running by itself after a source failed")
+        if case["how"] == "stop":
+            await actor.stop()
+        else:
+            actor.cancel()
+            try:
+                await actor.wait()
+            except BaseException:  # pylint: disable=broad-except
+                pass
+        info["counts_at_stop"] = list(counts)
+        info["running_after"] = actor.is_running
+        info["tasks_not_done"] = [t for t in actor.tasks if not t.done()]
+        await asyncio.sleep(5.0)
+        info["counts_later"] = list(counts)
+        for t in mine:
+            t.cancel()
+        await world.settle(3)
+        leftover = [t for t in asyncio.all_tasks() if t not in before and t is not asyncio.current_task() and not t.done()
+                    and t not in mine]
+        info["leftover"] = [repr(t.get_coro())[:120] for t in leftover]
+        for t in leftover:
+            t.cancel()
+        del keep
+
+    world.run(scenario)
+    v.labels.add("kind_resampling_actor")
+    v.nontrivial = case["close_at"] is not None
+    if info.get("running_after"):
+        v.fail("is_running is True after stop() / cancel()+wait() returned")
+    if info.get("tasks_not_done"):
+        v.fail(f"stop() returned while {len(info['tasks_not_done'])} task(s) of the actor had not finished")
+    if info.get("counts_later") != info.get("counts_at_stop"):
+        v.fail(f"samples kept arriving after stop() returned: {info.get('counts_at_stop')} -> {info.get('counts_later')} "
+               f"in the following 5 s (a task spawned by the actor is still running)")
+    if info.get("leftover"):
+        # the Resampler's per-series receive tasks outlive the actor (it never stops its Resampler); they are idle
+        # and not in the actor's task set, so the statement does not clearly cover them: recorded, not judged
+        v.labels.add("idle_helper_tasks_outlive_the_real_actor")
+
+
 def run_case(case: Any, pid: str) -> Verdict:
     del pid
     v = Verdict()
+    if case["kind"] == "resampling_actor":
+        _run_resampling_actor(case, v)
+        return v
     if case["kind"] == "actor":
         v.labels.add("kind_actor")
         _run_actor(case, v)
